@@ -669,7 +669,7 @@ def selftest(tier: str = "quick") -> int:
         ("REGRESSION-scalar-point-derivatives", src(M, "[np.ravel(np.asarray(dev(point_arr), dtype=float))[0] for dev in deriv_func_list]",
                                                     "[dev(point) for dev in deriv_func_list]")),
         # ---- mutants that only the clauses of the extension (spec/OdeX.tla, vf/c15x.py) can see --------------------
-        ("X-no-derivatives-returns-last-row", src(M, "            return interpolated[0, :]\n", "            return interpolated[-1, :]\n")),
+        ("X-no-derivatives-returns-last-row", src(M, "            values = interpolated[0, :]\n", "            values = interpolated[-1, :]\n")),
         ("X-domain-check-excludes-the-end-points", src(M, "if min(x_span) < transform.domain[0] or max(x_span) > transform.domain[1]:",
                                                        "if min(x_span) <= transform.domain[0] or max(x_span) >= transform.domain[1]:")),
         ("X-bvp-second-derivative-condition-reads-first", src(M, "conds.append(bonds[i][deriv] - value)",
@@ -679,29 +679,27 @@ def selftest(tier: str = "quick") -> int:
                                                              "        if getattr(y0, 'dtype', None) == np.float32:\n"
                                                              "            y_derivs = y_derivs.astype(np.float32)\n")),
         ("X-returned-callables-share-the-last-result",
-         src(M, "    # Note this is its own function because it is used twice for solve_ode_ivp and bv.\n"
-                "    def interpolate_wrt_original_var(pt):\n        transf_pts = tf.transform(pt)\n"
-                "        # Row is which func/deriv and Col is points.\n        interpolated = result.sol(transf_pts)\n",
-                "    globals().setdefault('_LAST', {})['r'] = result\n"
-                "    def interpolate_wrt_original_var(pt):\n        transf_pts = tf.transform(pt)\n"
-                "        interpolated = _LAST['r'].sol(transf_pts)\n")),
+         src(M, "        transf_pts = tf.transform(pt)\n        # Row is which func/deriv and Col is points.\n        interpolated = result.sol(transf_pts)\n",
+                "        transf_pts = tf.transform(pt)\n        interpolated = globals().setdefault('_LAST', {}).setdefault('r', result).sol(transf_pts)\n")),
         ("X-constants-must-be-int-or-float", src(M, "        if isinstance(val, Number):\n            coeff_mtr[i] += val",
                                                  "        if isinstance(val, (int, float)):\n            coeff_mtr[i] += val")),
         ("X-right-hand-side-assumed-to-be-an-array", src(M, "    result = fx\n", "    result = fx.copy()\n")),
-        ("X-evaluation-points-sorted", src(M, "    def interpolate_wrt_original_var(pt):\n        transf_pts = tf.transform(pt)\n",
-                                           "    def interpolate_wrt_original_var(pt):\n        pt = np.sort(pt)\n        transf_pts = tf.transform(pt)\n")),
+        ("X-evaluation-points-sorted", src(M, "        pt = np.atleast_1d(pt)\n        transf_pts = tf.transform(pt)\n",
+                                           "        pt = np.sort(np.atleast_1d(pt))\n        transf_pts = tf.transform(pt)\n")),
         ("X-random-initial-guess-has-one-row-too-many", src(M, "initial_guess_y = np.random.rand(order, x.size)",
                                                             "initial_guess_y = np.random.rand(order + 1, x.size)")),
         ("X-coefficient-callables-of-the-transformed-equation-see-r", src(M, "    coeff_b = _transform_ode_from_rtransform(coeff_a, tf, x)\n",
                                                                           "    coeff_b = _transform_ode_from_rtransform(coeff_a, tf, tf.transform(x))\n")),
-        # the repair proposed in gen/proposals/C15-transformed-callable-scalar-and-list-points.diff: the check must
-        # accept it (exit 0) - and then without any KNOWN-FINDING line for the evaluation forms
-        ("REPAIRED-transformed-callable-accepts-scalars-and-lists", src(M, _SCALAR_OLD, _SCALAR_NEW)),
+        # the defect repaired by the fix "the callable of a transformed ODE solve cannot be evaluated at a scalar or a
+        # list of points", put back: the evaluation-form clauses must report it
+        ("REGRESSION-transformed-callable-indexes-its-argument",
+         src(M, "        pt = np.asarray(pt, dtype=float)\n        is_scalar = pt.ndim == 0\n        pt = np.atleast_1d(pt)\n",
+                "        is_scalar = False\n")),
     ]
     only = os.environ.get("C15_MUTANTS")
     if only:
         mutants = [m for m in mutants if any(m[0].startswith(o) for o in only.split(","))]
-    return run_mutants(PROP, run, tier, mutants, expect={"REPAIRED-transformed-callable-accepts-scalars-and-lists": 0})
+    return run_mutants(PROP, run, tier, mutants)
 
 
 def replay(path: str) -> int:
